@@ -164,6 +164,9 @@ package prometheus
 //@   ensures g(counterval, refof(labelCounter(m.recvMsgCounter.c, clientLabel(msg)))) == old(g(counterval, refof(labelCounter(m.recvMsgCounter.c, clientLabel(msg))))) + 1
 //@   ensures g(gaugeval, refof(m.reqCounter.c)) - old(g(gaugeval, refof(m.reqCounter.c))) == openSubs(m.reqCounter, ctx) - old(openSubs(m.reqCounter, ctx))
 //@   ensures g(gaugeval, refof(m.connectionCounter.c)) == old(g(gaugeval, refof(m.connectionCounter.c)))
+//@   ensures typeis(msg, *mocrelay.ClientReqMsg) ==> all(s, string, subOpen(m.reqCounter, ctx, s) == (old(subOpen(m.reqCounter, ctx, s)) || s == as(msg, *mocrelay.ClientReqMsg).SubscriptionID))
+//@   ensures typeis(msg, *mocrelay.ClientCloseMsg) ==> all(s, string, subOpen(m.reqCounter, ctx, s) == (old(subOpen(m.reqCounter, ctx, s)) && s != as(msg, *mocrelay.ClientCloseMsg).SubscriptionID))
+//@   ensures typeis(msg, *mocrelay.ClientEventMsg) ==> g(counterval, refof(labelCounter(m.recvEventCounter.c, decimal(as(msg, *mocrelay.ClientEventMsg).Event.Kind)))) == old(g(counterval, refof(labelCounter(m.recvEventCounter.c, decimal(as(msg, *mocrelay.ClientEventMsg).Event.Kind))))) + 1
 
 //@ func simplePrometheusMiddlewareBase.ServeNostrServerMsg
 //@   serves C19
@@ -173,6 +176,7 @@ package prometheus
 //@   ensures result1 == nil && holdsS(result0, msg)
 //@   ensures g(counterval, refof(labelCounter(m.sendMsgCounter.c, serverLabel(msg)))) == old(g(counterval, refof(labelCounter(m.sendMsgCounter.c, serverLabel(msg))))) + 1
 //@   ensures g(gaugeval, refof(m.reqCounter.c)) - old(g(gaugeval, refof(m.reqCounter.c))) == openSubs(m.reqCounter, ctx) - old(openSubs(m.reqCounter, ctx))
+//@   ensures typeis(msg, *mocrelay.ServerClosedMsg) ==> all(s, string, subOpen(m.reqCounter, ctx, s) == (old(subOpen(m.reqCounter, ctx, s)) && s != as(msg, *mocrelay.ServerClosedMsg).SubscriptionID))
 
 //@ func simplePrometheusMiddlewareBase.ServeNostrEnd
 //@   serves C19
